@@ -214,7 +214,7 @@ def dash (ops : List String) : String :=
         go st2 r (dashTok o :: acc)
     String.intercalate " " (go Dash.init ops [])
 
-/-! ### contact (contact points):  c<t>.<name>=<v>   u<t>.<id>=<name>:<v>   d<t>.<id>   l<t>   R
+/-! ### contact (contact points):  c<t>.<name>=<v>   u|U<t>.<id>=<name>:<v>   d<t>.<id>   l<t>   R
      v = hex of a comma-separated list: pager = v, slack = its non-empty parts -/
 def hexStr? (s : String) : Option String :=
   if isHexLower s then (hexBytes? s).map (fun bs => String.ofList (bs.map Char.ofNat)) else none
@@ -242,7 +242,7 @@ def contactOp? (s : String) : Option Contact.Op :=
           | some k, true, some sl => some (.create t k v sl)
           | _, _, _ => none
         | none => none
-      else if o = 'u' then
+      else if o = 'u' || o = 'U' then   -- U: the request body names another org in org_id (ignored since c20-15)
         match split1 rest '=' with
         | some (id, nv) => match dec? id, split1 nv ':' with
           | some id, some (k, v) => match key? k, isHexLower v, slackParts v with
@@ -276,14 +276,16 @@ def contact (ops : List String) : String :=
       | op :: r => let (st1, o) := Contact.step st op; go st1 r (contactTok o :: acc)
     String.intercalate " " (go Contact.init ops [])
 
-/-! ### lookup (lookup files; one name space, tenant digit must be 0):
-     c0.<name>=<content> upload   u0.<name>=<content> upload with overwrite=true   (C / U: the uploaded file is a .csv.gz)
-     g0.<name> get   d0.<name> delete   l0 list   R -/
+/-! ### lookup (lookup files; ONE name space: the tenant digit says for which org the request is made, the
+   handlers take no org id and the model has none):
+     c<t>.<name>=<content> upload   u<t>.<name>=<content> upload with overwrite=true   (C / U: the uploaded file is a .csv.gz)
+     g<t>.<name> get   d<t>.<name> delete   l<t> list   R -/
 def lookupOp? (s : String) : Option Lookup.Op :=
   if s = "R" then some .restart else
-  if s = "l0" then some .list else
+  if s = "l0" || s = "l1" || s = "l2" then some .list else
   match s.toList with
-  | o :: '0' :: '.' :: r =>
+  | o :: c :: '.' :: r =>
+    if (tenant? c).isNone then none else
     let rest := String.ofList r
     if o = 'c' || o = 'u' || o = 'C' || o = 'U' then
       match split1 rest '=' with
@@ -315,7 +317,7 @@ def lookup (ops : List String) : String :=
       | op :: r => let (st1, o) := Lookup.step st op; go st1 r (lookupTok o :: acc)
     String.intercalate " " (go Lookup.init ops [])
 
-/-! ### adb (alert definitions):  p<t>.<name>   c<t>.<name>=<msg>@<cid>   u<t>.<id>=<name>:<msg>[@<cid>]
+/-! ### adb (alert definitions):  p<t>.<name>   c|C<t>.<name>=<msg>@<cid>   u<t>.<id>=<name>:<msg>[@<cid>]
      d<t>.<id>   g<t>.<id>   l<t>   R -/
 def adbOp? (s : String) : Option AlertDB.Op :=
   if s = "R" then some .restart else
@@ -326,7 +328,7 @@ def adbOp? (s : String) : Option AlertDB.Op :=
     | none => none
     | some (t, rest) =>
       if o = 'p' then (key? rest).map (.contact t)
-      else if o = 'c' then
+      else if o = 'c' || o = 'C' then   -- C: the request body names another org in org_id (ignored since c20-16)
         match splitAt? rest with
         | some (body, some cid) => match split1 body '=' with
           | some (k, v) => match key? k, isHexLower v with
